@@ -35,6 +35,13 @@ class Cols:
     pad_r: int = 0
     corrupt: str = ""      # why the text no longer denotes the value
     lossy: bool = False    # significant fraction digits were cut
+    zero: bool = False     # every digit is 0 (|x| is below half a unit of the last decimal): the text is fully known
+
+    def text(self):
+        """the exact text when it is determined by the columns alone (zero renderings)"""
+        if not self.zero or (self.intd and not self.lead0):
+            return None
+        return " " * self.pad_l + ("-" if self.sign else "") + "0" * self.intd + ("." if self.point else "") + "0" * self.P + " " * self.pad_r
 
     @property
     def width(self):
@@ -100,8 +107,11 @@ def fixed_models(v, reg, param):
             else:
                 intd, lead0 = 1, not (carry and k == 0)
             sign = 1 if (reg.neg or sp.sign in "+ ") else 0
-            c = Cols(sign=sign, intd=intd, lead0=lead0, point=(P > 0 or sp.alt) and sp.typ != "d", P=P,
-                     frac_zero=(carry and k >= 0) or kind == "round")      # 0.0999..96 -> 0.1000000: the fraction is not all zeros
+            zero = rp < -k or (rp == -k and not carry)                     # below half a unit of the last decimal: "0.0000000"
+            if zero:
+                intd, lead0 = 1, True
+            c = Cols(sign=sign, intd=intd, lead0=lead0, point=(P > 0 or sp.alt) and sp.typ != "d", P=P, zero=zero and sp.sign == "-",
+                     frac_zero=zero or (carry and k >= 0) or kind == "round")      # 0.0999..96 -> 0.1000000: the fraction is not all zeros
             pad = max(0, w - c.width)
             al = sp.eff_align(False)
             if al == "<":
